@@ -67,6 +67,8 @@ pub enum Deviation {
     /// (with `foreign`) the trailing entry for the unknown signal is replaced by one for the
     /// output-capable signal s of the test
     ForeignReplaced(usize),
+    /// an entry for a signal the test does not know is appended to the answer (the first answer had none)
+    AddForeign,
 }
 
 #[derive(Clone, Debug, PartialEq, Eq)]
